@@ -54,8 +54,8 @@ func c12Docs(r *Rand, n int, plain bool) []string {
 func (C12) Generate(c *Ctx, r *Rand, index int) *Scenario {
 	sc := &Scenario{Kind: "proc", Meta: map[string]any{}}
 	rs := r.Fork("shape")
-	kind := rs.Weighted([]int{60, 8, 10, 10, 5, 7})
-	kinds := []string{"ok", "parse-error", "eval-error", "decode-error", "no-match-e", "encode-error"}
+	kind := rs.Weighted([]int{60, 8, 10, 10, 5, 7, 3})
+	kinds := []string{"ok", "parse-error", "eval-error", "decode-error", "no-match-e", "encode-error", "refused"}
 	sc.Meta["kind"] = kinds[kind]
 	ndocs := rs.Range(1, 3)
 	docs := c12Docs(r, ndocs, rs.Chance(1, 3))
@@ -143,11 +143,21 @@ func (C12) Generate(c *Ctx, r *Rand, index int) *Scenario {
 		}
 	}
 	argv = append(argv, "-i")
+	refusedWith := ""
+	if kinds[kind] == "refused" {
+		// combinations that cannot work in place: they must be refused before anything is touched
+		refusedWith = Pick(rs, []string{"-s=.id", "--split-exp=.id", "--split-exp-file=split.yq", "--split-exp-file=split.yq", "-n"})
+		argv = append(argv, refusedWith)
+		sc.Meta["must_refuse"] = refusedWith
+	}
 	if frontMatter {
 		argv = append(argv, "--front-matter=process")
 	}
 	argv = append(argv, expr, target)
 	sc.Files = []File{{Name: target, Docs: docs, Mode: mode}}
+	if strings.HasPrefix(refusedWith, "--split-exp-file") {
+		sc.Files = append(sc.Files, File{Name: "split.yq", Data: Bytes(Pick(rs, []string{".id", "filename", "\"out\" + $index"})), Mode: 0644})
+	}
 	if !frontMatter && rs.Chance(1, 5) {
 		// extra input files are read but never written
 		g := &DocGen{R: r.Fork("extra"), Plain: true}
@@ -591,6 +601,8 @@ func (C12) Judge(c *Ctx, sc *Scenario) []Violation {
 		if !(state == "OLD" || state == "NEW" || state == "BOTH") || modeTag != "same" {
 			add("O12.2", "state="+state+" mode="+modeTag, fmt.Sprintf("after SIGKILL the target is %s (%s), mode %04o (was %04o)", state, cur, cur.Mode, old.Mode))
 		}
+	case out.Exit == 0 && sc.MetaString("must_refuse") != "" && containsArg(sc.Argv, sc.MetaString("must_refuse")):
+		add("O12.1", "exit=0 accepted="+strings.SplitN(sc.MetaString("must_refuse"), "=", 2)[0]+" state="+state, fmt.Sprintf("yq -i together with %s cannot write the results back and must be refused, but it exited 0; the target is %s", sc.MetaString("must_refuse"), state))
 	case out.Exit == 0:
 		if neu == nil {
 			add("O12.1", "exit=0 ref=fails state="+state, fmt.Sprintf("yq -i exited 0 but the same command without -i fails (exit %d: %s); target is %s", ref.Exit, firstLines(ref.Stderr, 2), state))
